@@ -52,9 +52,11 @@ def operator(case, rng):
         if kind == "Identity":
             node = {"k": "Identity", "n": n, "dt": dt}
         elif kind == "Diagonal":
-            vals = [float(x) for x in rng.permutation(np.linspace(1.0, 4.0, n)) * rng.choice([-1.0, 1.0], size=n)]
+            # (a diagonal operator in tiny / huge units is still full rank with condition number 4)
+            unit = float(S.pick(rng, [1.0, 1.0, 1.0, 1e-7, 1e-17, 1e12]))
+            vals = [float(x) * unit for x in rng.permutation(np.linspace(1.0, 4.0, n)) * rng.choice([-1.0, 1.0], size=n)]
             if dt in P.CPLX:
-                vals = [{"re": v, "im": float(rng.integers(-1, 2))} for v in vals]
+                vals = [{"re": v, "im": float(rng.integers(-1, 2)) * unit} for v in vals]
             node = {"k": "Diagonal", "n": n, "dt": dt, "vals": vals}
         elif kind == "ScalarMul":
             node = {"k": "ScalarMul", "n": n, "dt": dt, "c": float(S.pick(rng, [2.0, -0.5, 4.0]))}
@@ -135,15 +137,17 @@ def run_svd(ctx, case, A, M, eps, preds):
     ctx.check("svd-returns", True)
     U, Sg, V = (np.asarray(x.to_dense()) for x in out)
     sref = np.linalg.svd(M, compute_uv=False)
-    tol = 2e3 * max(eps, 1e-9 if krylov else 0) * max(sref[0], 1.0) * max(m, n) * (sref[0] / sref[-1] if krylov else 1.0)
+    # (relative to the operator's own scale: operators in tiny units are not judged against an absolute floor)
+    tol_o = 2e3 * max(eps, 1e-9 if krylov else 0) * max(m, n) * (sref[0] / sref[-1] if krylov else 1.0)  # orthonormality: scale free
+    tol = tol_o * (max(sref[0], 1.0) if sref[0] >= 1e-3 else sref[0])
     kk = Sg.shape[0]
     ok_shapes = Sg.shape == (kk, kk) and U.shape == (m, kk) and V.shape == (n, kk) and kk >= 1
     ctx.check("svd-shapes", bool(ok_shapes), site="svd", preds=preds, detail={"U": list(U.shape), "S": list(Sg.shape), "V": list(V.shape), "k": k})
     if not ok_shapes or not all(np.all(np.isfinite(x)) for x in (U, Sg, V)):
         return
-    ctx.check("U-orthonormal-columns", bool(np.abs(U.conj().T @ U - np.eye(kk)).max() <= tol), site="svd", preds=preds,
+    ctx.check("U-orthonormal-columns", bool(np.abs(U.conj().T @ U - np.eye(kk)).max() <= max(tol_o, tol if sref[0] < 1e6 else tol_o)), site="svd", preds=preds,
               detail={"dev": float(np.abs(U.conj().T @ U - np.eye(kk)).max()), "tol": tol})
-    ctx.check("V-orthonormal-columns", bool(np.abs(V.conj().T @ V - np.eye(kk)).max() <= tol), site="svd", preds=preds,
+    ctx.check("V-orthonormal-columns", bool(np.abs(V.conj().T @ V - np.eye(kk)).max() <= max(tol_o, tol if sref[0] < 1e6 else tol_o)), site="svd", preds=preds,
               detail={"dev": float(np.abs(V.conj().T @ V - np.eye(kk)).max()), "tol": tol})
     s = np.diag(Sg)
     offd = Sg - np.diag(s)
